@@ -29,8 +29,14 @@ def gen_ops(rng, tier):
     for i in range(250 if big else 40):
         ll = int(rng.random() < .3)
         P = rng.choice([8, 8, 12, 16, 5]) if ll else rng.choice([8, 8, 12])
-        ops.append("pfeq %d %d %d %d %d %d %d %d" % (P, ll, rng.choice([0, 1, 2, 4, 5, 6]), rng.choice([1, 7, 16, 17, 33]),
+        ops.append("pfeq %d %d %d %d %d %d %d %d" % (P, ll, rng.choice([0, 1, 2, 2, 2, 4, 5, 6]), rng.choice([1, 7, 16, 17, 33, 40]),
                                                      rng.choice([1, 8, 9, 16, 19]), rng.randrange(1 << 24), rng.randint(0, 1), rng.randint(0, 1)))
+    # merged (fast) upsampling + crop + 4-sample layouts, both parities of the top row
+    for P in (8, 12):
+        for ss in (1, 2):
+            for sd in (0, 1):
+                ops.append("pfeq %d 0 %d 40 19 %d 1 0" % (P, ss, 1000 + sd))
+                ops.append("pfeq %d 0 %d 17 9 %d 1 1" % (P, ss, 2000 + sd))
     return ops
 
 
